@@ -7,7 +7,7 @@
    action has left the queues, and nothing can touch the list afterwards. *)
 From Coq Require Import List NArith ZArith Bool Lia.
 From PM Require Import Base.Bytes Base.Outcome Gen.GenConsts Model.ScriptAst Model.Enqueue Model.Script Model.Device Model.Client Model.CliWorld Model.Daemon
-                       Proofs.ClientProofs Proofs.DeviceProofs Proofs.DeviceStmt Proofs.DeviceInv Proofs.DeviceInvG Proofs.DeviceRunG Proofs.DeviceSlots
+                       Proofs.ClientProofs Proofs.DeviceProofs Proofs.DeviceStmt Proofs.DeviceInv Proofs.DeviceInvG Proofs.DeviceRunG Proofs.DeviceHang Proofs.DeviceSlots
                        Proofs.DaemonLedger Proofs.DaemonFrame Proofs.DaemonSlots Proofs.DaemonPending Proofs.DaemonDeadline.
 From PM Require Model.Telnet.
 Import ListNotations.
@@ -154,7 +154,7 @@ Section R.
     eapply Ref_mono_trans; [exact (cli_post_poll_ref _ _ _ _ E1)|].
     assert (Hdv : devs_from 0 st1).
     { intros j d _ Hn. pose proof (dp_devs _ _ I1) as Hd. pose proof (si_cb _ (dp_slots _ _ I1)) as Hc. rewrite Forall_forall in Hd, Hc.
-      split; [apply Hd|apply Hc]; eapply nth_error_In; exact Hn. }
+      split; [apply DInvH_RG, Hd|apply Hc]; eapply nth_error_In; exact Hn. }
     assert (Htp : tmo_pos None) by (intros x Hx; discriminate Hx).
     exact (dev_loop_ref _ _ _ _ _ _ _ _ _ _ Hdv Htp E2).
   Qed.
